@@ -272,6 +272,10 @@ func (s *server) Update(opt ServerOption) {
 	s.cache = opt.Cache
 	s.compress = opt.Compress
 	s.compressMinLength = opt.CompressMinLength
+	// 与NewServer保持一致，如果未设置最少压缩长度，则设置为1KB
+	if s.compressMinLength == 0 {
+		s.compressMinLength = defaultCompressMinLength
+	}
 	s.compressContentTypeFilter = opt.CompressContentTypeFilter
 }
 
